@@ -290,6 +290,37 @@ Proof.
     + intros t0 _. apply Em.
     + intros d0 _. rewrite B. reflexivity.
   - discriminate.
+  - (* TfCreate *)
+    destruct d; [|discriminate]. unfold bind, guard in H.
+    destruct (negb (Nat.eqb creator Module) && negb (is_some (tfadmin s (DCoin n)))); [|discriminate].
+    inversion H; subst s'. constructor; simpl; try apply X. exact I'.
+  - (* TfMint *)
+    destruct d as [n|t]; [|discriminate]. unfold bind, guard in H.
+    destruct (is_admin s (DCoin n) sender && (0 <? x) && negb (blocked to)) eqn:G1; [|discriminate].
+    unfold blocked in G1. decode.
+    apply bank_mint_spec in H as [F [X0 [B [S [Eb Es]]]]].
+    assert (Bm : forall d0, bank s' Module d0 = bank s Module d0).
+    { intro d0. rewrite B. rewrite (proj2 (Nat.eqb_neq Module to)) by congruence. unfold ind. split_ifs; lia. }
+    apply (exact_frame s s' X I' F).
+    + intros m Hm. unfold slack. rewrite Bm, S, Eb, Es. destruct (m_coin m) eqn:Hc; [reflexivity|].
+      rewrite (inv_erc_den _ I m Hm Hc). simpl. unfold ind. lia.
+    + intros t0 _. rewrite Eb. reflexivity.
+    + intros d0 _. apply Bm.
+  - (* TfBurn *)
+    destruct d as [n|t]; [|discriminate]. unfold bind, guard in H.
+    destruct (is_admin s (DCoin n) sender && (0 <? x) && negb (blocked from)) eqn:G1; [|discriminate].
+    unfold blocked in G1. decode.
+    apply bank_burn_spec in H as [F [X0 [B [S [Eb Es]]]]].
+    assert (Bm : forall d0, bank s' Module d0 = bank s Module d0).
+    { intro d0. rewrite B. rewrite (proj2 (Nat.eqb_neq Module from)) by congruence. unfold ind. split_ifs; lia. }
+    apply (exact_frame s s' X I' F).
+    + intros m Hm. unfold slack. rewrite Bm, S, Eb, Es. destruct (m_coin m) eqn:Hc; [reflexivity|].
+      rewrite (inv_erc_den _ I m Hm Hc). simpl. unfold ind. lia.
+    + intros t0 _. rewrite Eb. reflexivity.
+    + intros d0 _. apply Bm.
+  - (* TfChangeAdmin *)
+    unfold bind, guard in H. destruct (is_admin s d sender); [|discriminate]. inversion H; subst s'.
+    constructor; simpl; try apply X. exact I'.
   - discriminate.
   - discriminate.
 Qed.
